@@ -53,7 +53,7 @@ def run(ctx):
     st = explore(bw, ["ans"], 0 if q else 1, sink, stats=st, name="budget-window")
     # (e) natural landscapes incl. non-smooth, plateau (ties), minimiser on a face / corner
     nat = [job(D, g, target=t, cons=c, opts={"tol_mesh": 2.0**-6, "max_fun_evals": 60 * D}, seed=s)
-           for D in Ds for g in ("lin", "log", "tight") for t in ("l1", "plateau", "sphere_face", "sphere_corner")
+           for D in Ds for g in ("lin", "log", "tight") for t in ("l1", "plateau", "sphere_face", "sphere_corner", "sphere_tiny", "sphere_big")
            for c in ((None, "ball") if not q else (None,)) for s in seeds]
     st = explore(nat, ["ans"], 0, sink, stats=st, name="natural-landscapes")
     # (f) option settings that keep the default incumbent-update policy (b=0 quick / b=1 thorough)
